@@ -5,6 +5,7 @@ package stgutg
 // Ghost helpers used by the contracts of this package (specification only).
 
 import (
+	"free5gclib/nas"
 	"free5gclib/nas/nasType"
 
 	"vspec/ids"
@@ -21,4 +22,19 @@ func vcIsSuciOf(m nasType.MobileIdentity5GS, supi string, mncLen int) bool {
 
 func vcSameOctets(a, b []byte) bool {
 	return len(a) == len(b) && vc.Forall(0, len(a), func(i int) bool { return a[i] == b[i] })
+}
+
+// vcIsChallengeOf: autn and rand are the AUTN and RAND of the decoded Authentication Request.
+func vcIsChallengeOf(autn [16]uint8, rand []byte, m *nas.Message) bool {
+	if len(rand) != 16 {
+		return false
+	}
+	a := m.AuthenticationRequest.AuthenticationParameterAUTN.GetAUTN()
+	r := m.AuthenticationRequest.AuthenticationParameterRAND.GetRANDValue()
+	for k := 0; k < 16; k++ {
+		if autn[k] != a[k] || rand[k] != r[k] {
+			return false
+		}
+	}
+	return true
 }
